@@ -406,6 +406,10 @@ fn run_clones(ctx: &mut Ctx, r: &mut Rng) {
     }
 }
 
+thread_local! {
+    static TARGET_GRAD: std::cell::RefCell<Option<(Option<Vec<usize>>, Vec<usize>)>> = std::cell::RefCell::new(None);
+}
+
 /// A tracked array the caller keeps reaches a Model through a temporary - a reshaped view, a product with 1 - that
 /// nothing else refers to. The temporary is a result of a tracked operand, so the model's output is tracked through
 /// it and the pass delivers a gradient of the kept array's dimensions; whether the caller also keeps the temporary
@@ -462,8 +466,11 @@ fn run_model_input(ctx: &mut Ctx, r: &mut Rng) {
                 model.forward(mk(&x))
             };
             let tracked_out = is_tracked(&out);
-            let _ = model.backward(arr_t(&target));
+            // the target is a tracked array the caller keeps as well (say, the output of a teacher network)
+            let tgt = arr_t(&target).tracked();
+            let _ = model.backward(tgt.clone());
             drop(kept);
+            TARGET_GRAD.with(|t| *t.borrow_mut() = Some((grad_of(&tgt).map(|g| g.0), tgt.dimensions().to_vec())));
             (tracked_out, grad_of(&x), is_tracked(&x))
         })
     };
@@ -472,6 +479,20 @@ fn run_model_input(ctx: &mut Ctx, r: &mut Rng) {
         (Ok((ta, ga, fa)), Ok((tb, gb, fb))) => {
             ctx.meta(|| format!("{} {} {:?}", desc, ta, ga.as_ref().map(|g| g.0.clone())));
             ctx.count("model_inputs_checked", 1);
+            if let Some((gd, td)) = TARGET_GRAD.with(|t| t.borrow_mut().take()) {
+                ctx.count("tracked_targets_checked", 1);
+                match gd {
+                    None => {
+                        ctx.violation("C09|model-input|target-gradient-missing", format!("{}: the tracked target handed to Model::backward received no gradient", desc));
+                        return;
+                    }
+                    Some(d) if d != td => {
+                        ctx.violation("C09|model-input|target-gradient-dims", format!("{}: target dims {:?}, its gradient dims {:?}", desc, td, d));
+                        return;
+                    }
+                    _ => {}
+                }
+            }
             if !ta || !tb {
                 ctx.violation("C09|model-input|output-untracked", format!("{}: the input is a result of a tracked array but the model's output is untracked (temporary passed directly: {}, temporary kept: {})", desc, ta, tb));
                 return;
@@ -503,6 +524,20 @@ fn run_model_input(ctx: &mut Ctx, r: &mut Rng) {
 }
 
 pub fn run_case(ctx: &mut Ctx, fam: &str, k: u64, r: &mut Rng) {
+    // a third of the program cases give their leaves the tracking state by reference (plain then start_tracking();
+    // tracked() then stop_tracking()) instead of by value at creation
+    let by_ref = (fam == "iff" || fam == "flow") && r.chance(1, 3);
+    leaf_flags_by_reference(by_ref);
+    if by_ref {
+        ctx.count("cases_with_leaf_flags_set_by_reference", 1);
+    }
+    struct Reset;
+    impl Drop for Reset {
+        fn drop(&mut self) {
+            leaf_flags_by_reference(false);
+        }
+    }
+    let _reset = Reset;
     match fam {
         "iff" => run_iff(ctx, k, r),
         "flow" => run_flow(ctx, r),
